@@ -129,9 +129,10 @@ pub open spec fn is_prefix<T>(a: Seq<T>, b: Seq<T>) -> bool { a.len() <= b.len()
 //@@ sig
 //@@ entry
     let ghost mut sent_history: Seq<ItemParam> = Seq::empty();
+    let ghost mut handled: int = 0;       // every call item taken from a provider batch (executed or refused)
 //@@ loop 0
     invariant
-        tool_call_count <= DEFAULT_MAX_TOOL_CALLS,                                                                    // [loop.tool_calls_bounded]
+        handled == tool_call_count && tool_call_count <= DEFAULT_MAX_TOOL_CALLS,                                      // [loop.tool_calls_bounded]
         stateless_history == config.stateless_history,
         // stateless mode: the history a request is built from only ever grows
         is_prefix(sent_history, history_items@),                                                                       // [loop.stateless_history_extends]
@@ -145,12 +146,14 @@ pub open spec fn is_prefix<T>(a: Seq<T>, b: Seq<T>) -> bool { a.len() <= b.len()
         is_prefix(sent_history, history_items@),
 //@@ loop 2 iter=it2
     invariant
-        tool_call_count <= DEFAULT_MAX_TOOL_CALLS,          // [loop.tool_calls_bounded]
+        handled == tool_call_count && tool_call_count <= DEFAULT_MAX_TOOL_CALLS,          // [loop.tool_calls_bounded]
         is_prefix(sent_history, history_items@),
         it2.snapshot@.remaining() == tool_calls@,
         it2.history@.len() == it2.index@,
         forall|k: int| 0 <= k < it2.index@ ==> #[trigger] it2.history@[k] == tool_calls@[k],
         answers_prefix(tool_outputs@, tool_calls@, it2.index@),     // [loop.each_call_answered_once_by_call_id_in_order]
+//@@ loopbody 2
+    proof { handled = handled + 1; }
 //@@ afterloop 2
     proof { assert(answers_batch(tool_outputs@, tool_calls@)); }       // [loop.each_call_answered_once_by_call_id_in_order]
 //@@ end
